@@ -57,6 +57,10 @@ type FuncContract struct {
 	NoBody   bool // interface method / function parameter contract
 	Pure     bool
 	FnParams map[string]string // parameter name -> contract key it implements
+	ParamNames []string         // parameter names of a no-body contract
+	ExtraProps map[string]bool  // properties of the implemented contract
+	Includes []string           // template contracts whose clauses are copied into this one
+	LoopInvs []*Clause          // default invariants for every loop of the function (from templates)
 	Implements string          // key of the (no-body) contract this function must satisfy
 	Defines  []*Clause          // closure contracts: F(self) == expr, assumed at creation (definitional on the fresh closure)
 	Nullable map[string]bool
@@ -119,7 +123,7 @@ func newContracts() *Contracts {
 var clauseKeywords = map[string]bool{
 	"spec": true, "pred": true, "axiom": true, "ghost": true, "func": true, "requires": true, "ensures": true,
 	"modifies": true, "use": true, "decreases": true, "inline": true, "trusted": true, "loop": true, "end": true,
-	"invariant": true, "package": true, "fnparam": true, "nullable": true, "pure": true, "nobody": true, "gaxiom": true, "useret": true, "implements": true, "define": true, "transition": true,
+	"invariant": true, "package": true, "fnparam": true, "nullable": true, "pure": true, "nobody": true, "gaxiom": true, "useret": true, "implements": true, "define": true, "transition": true, "include": true, "loopinv": true, "params": true,
 }
 
 var labelRe = regexp.MustCompile(`^\[([A-Za-z0-9,]*):([A-Za-z0-9_\-./]+)(?:\|([A-Za-z0-9_\-./,~]*))?\]\s*`)
@@ -343,6 +347,31 @@ func (cs *Contracts) loadFile(path string, goFile bool) error {
 				k = pkg + "." + k
 			}
 			cur.FnParams[f[0]] = k
+		case "include":
+			if cur == nil {
+				return fail(fmt.Errorf("include outside func"))
+			}
+			k := rest
+			if !strings.Contains(k, ".") {
+				k = pkg + "." + k
+			}
+			cur.Includes = append(cur.Includes, k)
+		case "params":
+			if cur == nil {
+				return fail(fmt.Errorf("params outside func"))
+			}
+			for _, n := range strings.Split(rest, ",") {
+				cur.ParamNames = append(cur.ParamNames, strings.TrimSpace(n))
+			}
+		case "loopinv":
+			if cur == nil {
+				return fail(fmt.Errorf("loopinv outside func"))
+			}
+			c, err := mkClause("invariant")
+			if err != nil {
+				return err
+			}
+			cur.LoopInvs = append(cur.LoopInvs, c)
 		case "implements":
 			if cur == nil {
 				return fail(fmt.Errorf("implements outside func"))
@@ -455,12 +484,36 @@ func loadContracts(repo string, specDir string) (*Contracts, error) {
 			return nil, err
 		}
 	}
+	// expand templates
+	for _, fc := range cs.Funcs {
+		for _, inc := range fc.Includes {
+			t := cs.Funcs[inc]
+			if t == nil {
+				return nil, fmt.Errorf("%s: include of unknown template %s", fc.Where, inc)
+			}
+			fc.Requires = append(append([]*Clause{}, t.Requires...), fc.Requires...)
+			fc.Ensures = append(append([]*Clause{}, t.Ensures...), fc.Ensures...)
+			fc.Modifies = append(append([]*Clause{}, t.Modifies...), fc.Modifies...)
+			fc.Uses = append(append([]*Clause{}, t.Uses...), fc.Uses...)
+			fc.LoopInvs = append(append([]*Clause{}, t.LoopInvs...), fc.LoopInvs...)
+		}
+	}
+	for _, fc := range cs.Funcs {
+		if fc.Implements != "" {
+			if t := cs.Funcs[fc.Implements]; t != nil {
+				fc.ExtraProps = t.propsOf()
+			}
+		}
+	}
 	return cs, nil
 }
 
 // propsOf returns all property ids mentioned by a function contract.
 func (fc *FuncContract) propsOf() map[string]bool {
 	out := map[string]bool{}
+	for p := range fc.ExtraProps {
+		out[p] = true
+	}
 	add := func(cs []*Clause) {
 		for _, c := range cs {
 			for _, p := range c.Props {
@@ -470,6 +523,7 @@ func (fc *FuncContract) propsOf() map[string]bool {
 	}
 	add(fc.Requires)
 	add(fc.Ensures)
+	add(fc.LoopInvs)
 	for _, l := range fc.Loops {
 		add(l.Invariants)
 		add(l.Transitions)
